@@ -464,14 +464,20 @@ def plan_C07(tier):
     scripts = [["GO", "F"], ["GO", "F", "F"], ["GO", "F", "N"], ["GO", "N", "F"], ["GO", "FS"], ["GO", "FE"], ["GO", "NE"]]
     shapes_l = lookup_shapes()
     if tier == "quick":
-        scripts = [["GO", "F"], ["GO", "F", "F"], ["GO", "F", "N"], ["GO", "FE"]]
+        scripts = [["GO", "F"], ["GO", "F", "N"], ["GO", "FE"]]
         shapes_l = [shapes_l[i] for i in (0, 3, 6)]
     else:
         scripts += [["GO", "F", "F", "F"], ["GO", "F", "GO", "LO", "F"], ["GO", "F", "GA", "LA", "F"], ["GO", "F", "RAW", "F"], ["GO", "FS", "FS"],
                     ["GO", "FE", "F"], ["GO", "F", "F", "N"]]
     for node in shapes_l:
         for s in scripts:
-            qs.append(shape_script_query(7, node, s, "lookup", 1, tight=True, timeout=1500))
+            q = shape_script_query(7, node, s, "lookup", 1, tight=True, timeout=1500)
+            q.mem_gb = 3 if sum(1 for o in s if o in ("F", "FS", "FE")) < 2 else 6
+            qs.append(q)
+    if tier == "quick":
+        q = shape_script_query(7, lookup_shapes()[0], ["GO", "F", "F"], "lookup", 1, tight=True, timeout=1500)
+        q.mem_gb = 6
+        qs.append(q)
     # arbitrary valid objects, symbolic names
     if tier == "quick":
         qs.append(script_query(7, ["GO", "F"], 8, 1, 1, J=4))
@@ -497,7 +503,7 @@ def mutation_queries(prop, tier):
     from . import shapes
     qs = []
     for root in (1, 2):
-        T = (3 if root == 2 else 4) if tier == "quick" else (5 if root == 2 else 6)
+        T = (3 if root == 2 else 2) if tier == "quick" else (5 if root == 2 else 6)
         for node in shapes.gen_shapes(root, T, ("T", "S1"), 3):
             b, m = shapes.skeleton(node)
             tags = [("full", shapes.full_script(node))]
@@ -535,8 +541,9 @@ def payload_queries(prop, tier):
                   (2, Node("A", [Node("A", [Node(code)], [])], [])), (1, Node("O", [Node("A", [Node(code)], [])], [0]))]
         if tier == "quick":
             break
-    nodes += [(1, Node("O", [Node("O", [Node("T"), Node("T")], [1, 1])], [0])), (2, Node("A", [Node("O", [Node("T"), Node("T")], [1, 1]), Node("T")], [])),
-              (1, Node("O", [Node("T"), Node("T")], [1, 1])), (1, Node("O", [Node("T"), Node("T")], [0, 0]))]
+    nodes += [(1, Node("O", [Node("O", [Node("T"), Node("T")], [1, 1])], [0])), (1, Node("O", [Node("T"), Node("T")], [1, 1]))]
+    if tier != "quick":
+        nodes += [(2, Node("A", [Node("O", [Node("T"), Node("T")], [1, 1]), Node("T")], []))]
     for root, node in nodes:
         for tag, s in shapes.variant_scripts(node):
             kind = tag.split("@")[0]
@@ -562,12 +569,14 @@ def plan_C08(tier):
     # arbitrary bytes, parser-driven scripts that end by leaving the root
     if tier == "quick":
         for n in (2, 3, 4, 5):
-            qs.append(script_query(8, ["GO", "LO"], n, 2, 1, mode=2))
+            if valid_exists(1, n):
+                qs.append(script_query(8, ["GO", "LO"], n, 2, 1, mode=2))
             qs.append(script_query(8, ["GA", "LA"], n, 2, 2, mode=2))
         more = [(["GA", "N", "LA"], 4, 2), (["GO", "N", "LO"], 5, 1)]
     else:
         for n in range(2, 11):
-            qs.append(script_query(8, ["GO", "LO"], n, 2, 1, mode=2))
+            if valid_exists(1, n):
+                qs.append(script_query(8, ["GO", "LO"], n, 2, 1, mode=2))
             qs.append(script_query(8, ["GA", "LA"], n, 2, 2, mode=2))
         more = [(["GA", "N", "LA"], 6, 2), (["GO", "N", "LO"], 7, 1), (["GA", "N", "N", "LA"], 6, 2), (["GO", "N", "N", "LO"], 8, 1),
                 (["GA", "N", "GA", "LA", "LA"], 6, 2), (["GO", "N", "GO", "LO", "LO"], 7, 1), (["GA", "N", "RAW", "LA"], 6, 2),
